@@ -6,7 +6,7 @@ Inductive helper :=
 | L_XY (dx dy dur : Z) | L_AB (da db dur : Z) | L_LM (r1 s1 a1 r2 s2 a2 : Z) (clear : option Z) | L_Abs (rate : Z) (p1 p2 : option Z)
 | L_Pause (n : Z) | L_MotorsOff | L_Motors (res : Z) | L_Pen (up : bool) (delay : Z) (pin : option Z)
 | L_BConfig (pin state : Z) | L_BSet (pin state : Z) | L_Toggle | L_PenPos (up : bool) (v : Z) | L_PenRate (up : bool) (v : Z)
-| L_LayerVar (v : Z) | L_Servo (ms : Z) (st : option Z)
+| L_LayerVar (v : Z) | L_Servo (ms : Z) (st : option Z) | L_ServoV (va vb vc : Z) (ms : Z) (st : option Z)
 | E_XY (dx dy dur : Z) | E_Abs (rate : Z) (p1 p2 : option Z) | E_Pause (n : Z) | E_MotorsOff | E_MotorsOn (r1 r2 : Z)
 | E_Pen (up : bool) (delay : Z) (pin : option Z) | E_BConfig (pin state dir : Z) | E_BSet (pin state : Z)
 | E_PenPos (up : bool) (v : Z) | E_PenRate (up : bool) (v : Z) | E_Servo (ms : Z) (st : option Z) | E_Var (v i : Z) | E_ClearSteps | E_ClearAcc.
@@ -20,6 +20,7 @@ Definition model_emit (fx : bool) (h : helper) : list text :=
   | L_Pen up d p => sendPen fx up d p | L_BConfig p s => PBOutConfig p s | L_BSet p s => PBOutValue p s | L_Toggle => TogglePen
   | L_PenPos up v => if up then setPenUpPos v else setPenDownPos v | L_PenRate up v => if up then setPenUpRate v else setPenDownRate v
   | L_LayerVar v => setEBBLV v | L_Servo ms st => legacy_servo_timeout ms st
+  | L_ServoV va vb vc ms st => T "V" :: (if ver_ge [va; vb; vc] [2; 6; 0] then legacy_servo_timeout ms st else [])
   | E_XY dx dy dur => e3_xy_move dx dy dur | E_Abs r p1 p2 => e3_abs_move r p1 p2 | E_Pause n => e3_timed_pause n | E_MotorsOff => e3_motors_disable
   | E_MotorsOn r1 r2 => [cat [T "EM,"; z (clamp05 r1); T ","; z (clamp05 r2)]]          (* the last line; the CU / QE preamble is C16's business *)
   | E_Pen up d p => e3_pen fx up d p | E_BConfig p s d => e3_dio_b_config p s d | E_BSet p s => e3_dio_b_set p s
@@ -44,7 +45,9 @@ Definition doc_of (h : helper) : list text :=
   | L_Pen up d p | E_Pen up d p => doc (RqPen up d p) | L_BConfig p s => doc (RqBConfig p s 0) | E_BConfig p s d => doc (RqBConfig p s d)
   | L_BSet p s | E_BSet p s => doc (RqBSet p s) | L_Toggle => doc RqToggle | L_PenPos up v | E_PenPos up v => doc (RqPenPos up v)
   | L_PenRate up v | E_PenRate up v => doc (RqPenRate up v) | L_LayerVar v => doc (RqVarSet v None) | E_Var v i => doc (RqVarSet v (Some i))
-  | L_Servo ms st | E_Servo ms st => doc (RqServoTimeout ms st) | E_ClearSteps => doc RqClearSteps | E_ClearAcc => doc RqClearAcc
+  | L_Servo ms st | E_Servo ms st => doc (RqServoTimeout ms st)
+  (* legacy layer, against a board that reports firmware va.vb.vc: the version query, then the command only from 2.6.0 on *)
+  | L_ServoV va vb vc ms st => T "V" :: (if ver_ge [va; vb; vc] [2; 6; 0] then doc (RqServoTimeout ms st) else []) | E_ClearSteps => doc RqClearSteps | E_ClearAcc => doc RqClearAcc
   end.
 
 Fixpoint texts_eqb (a b : list text) : bool :=
